@@ -261,6 +261,17 @@ def _run_naive(case, ctx):
         ctx.tag("integer-series")
     y = pd.Series(vals, index=_index(n, case["off"], case["idx"]))
     f = NaiveForecaster(strategy=strategy, sp=sp, window_length=wl)
+    if case["dseed"] % 7 == 3:
+        # a used forecaster: fitted under another configuration on other data, then reconfigured - the definition applies to the current settings only
+        other = {"last": "mean", "mean": "drift", "drift": "last"}[strategy]
+        f = NaiveForecaster(strategy=other, sp=1 if sp > 1 else 2, window_length=5 if other != "last" else None)
+        try:
+            f.fit(pd.Series(np.linspace(3.0, 11.0, 12), index=pd.RangeIndex(40, 52)))
+            f.predict([1, 2])
+            ctx.tag("naive:used-then-reconfigured")
+        except Exception:  # noqa
+            ctx.tag("naive:earlier-life-refused")
+        f.set_params(strategy=strategy, sp=sp, window_length=wl)
     valid = w_eff <= n and not (strategy == "drift" and wl == 1)
     try:
         f.fit(y)
@@ -395,6 +406,16 @@ def _run_poly(case, ctx):
     rel = {"oos": [1, 2, 3, 7], "ins": [-(n - 1), -1, 0] if n > 2 else [0], "both": [-2, 0, 1, 4], "gapped": [2, 5, 11]}[fk]
     rel = sorted(set(r for r in rel if r > -n))
     f = PolynomialTrendForecaster(degree=d, with_intercept=icpt)
+    if case["dseed"] % 7 == 3:
+        # a used forecaster: fitted with another degree / intercept setting on other data, then reconfigured
+        f = PolynomialTrendForecaster(degree=d + 1, with_intercept=not icpt)
+        try:
+            f.fit(pd.Series(np.linspace(3.0, 11.0, 12) ** 2, index=pd.RangeIndex(40, 52)))
+            f.predict([1, 2])
+            ctx.tag("poly:used-then-reconfigured")
+        except Exception:  # noqa
+            ctx.tag("poly:earlier-life-refused")
+        f.set_params(degree=d, with_intercept=icpt)
     ok, _ = ctx.call("poly:fit-exception", f.fit, y)
     if not ok:
         return
@@ -462,6 +483,22 @@ def _fharg(case, cutoff_label, steps):
     return steps
 
 
+def _used(ctx, case, fresh, f):
+    """every seventh case: the forecaster has had an earlier life under other options on other data and is then given the options of the case"""
+    if case["dseed"] % 7 != 3:
+        return fresh
+    try:
+        t = np.arange(30)
+        f.fit(pd.Series(20.0 + 0.3 * t + 2.0 * np.sin(2 * np.pi * t / 3), index=pd.RangeIndex(5, 35)))
+        f.predict([1, 2])
+        f.set_params(**fresh.get_params(deep=False))
+        ctx.tag("statsmodels:used-then-reconfigured")
+        return f
+    except Exception as e:  # noqa
+        ctx.tag("statsmodels:earlier-life-refused:" + type(e).__name__)
+        return fresh
+
+
 def _run_sm(case, ctx):
     import warnings
 
@@ -479,7 +516,7 @@ def _run_sm(case, ctx):
         if kind == "es":
             from sktime.forecasting.exp_smoothing import ExponentialSmoothing
             from statsmodels.tsa.holtwinters import ExponentialSmoothing as SM
-            f = ExponentialSmoothing(**o)
+            f = _used(ctx, case, ExponentialSmoothing(**o), ExponentialSmoothing(trend="add", seasonal="add", sp=3))
             ok, _ = ctx.call("statsmodels:fit-exception:es", f.fit, y.copy())
             if not ok:
                 return
@@ -492,7 +529,7 @@ def _run_sm(case, ctx):
         elif kind == "ets":
             from sktime.forecasting.ets import AutoETS
             from statsmodels.tsa.exponential_smoothing.ets import ETSModel
-            f = AutoETS(auto=False, **o)
+            f = _used(ctx, case, AutoETS(auto=False, **o), AutoETS(auto=False, trend="add", seasonal="add", sp=3))
             ok, _ = ctx.call("statsmodels:fit-exception:ets", f.fit, y.copy())
             if not ok:
                 return
@@ -506,7 +543,7 @@ def _run_sm(case, ctx):
             from sktime.forecasting.theta import ThetaForecaster
             from statsmodels.tsa.holtwinters import ExponentialSmoothing as SM
             from statsmodels.tsa.seasonal import seasonal_decompose
-            f = ThetaForecaster(**o)
+            f = _used(ctx, case, ThetaForecaster(**o), ThetaForecaster(sp=3, deseasonalize=True))
             ok, _ = ctx.call("statsmodels:fit-exception:theta", f.fit, y.copy())
             if not ok:
                 return
@@ -536,3 +573,22 @@ def _run_sm(case, ctx):
               got=np.asarray(pred.values).tolist(), expected=np.asarray(ref).tolist())
     ctx.event(kind=kind, opts=o, steps=steps, got=np.asarray(pred.values).tolist()[:4], expected=np.asarray(ref).tolist()[:4])
     ctx.nontrivial = True
+    # the requested time points after the cutoff has moved: new observations without refitting keep the fitted model, whose forecasts are then
+    # asked for the time points counted from the NEW cutoff (k steps further along the fitted model's own forecast path)
+    then = (case["dseed"] // 2) % 3
+    if kind in ("es", "ets") and then == 1:
+        k = 1 + (case["dseed"] // 6) % 5
+        rng = np.random.default_rng([case["dseed"], 114])
+        ynew = pd.Series(y.values[-1] + rng.normal(0, 1.0, size=k), index=_index(n + k, off, case["idx"])[n:])
+        with warnings.catch_warnings():
+            warnings.simplefilter("ignore")
+            ok, _ = ctx.call("statsmodels:update-exception:" + kind, f.update, ynew, update_params=False)
+            ok, pred2 = ctx.call("statsmodels:predict-after-update-exception:" + kind, f.predict, _fharg(case, off + n + k - 1, steps)) if ok else (False, None)
+            if ok:
+                ref2 = np.asarray(m.forecast(k + max(steps)))[[k + s_ - 1 for s_ in steps]]
+                ctx.check("statsmodels", list(pred2.index) == [off + n + k - 1 + s_ for s_ in steps], "statsmodels:%s:forecast-index-after-update" % kind,
+                          "forecast index is not the new cutoff + fh", got=list(pred2.index), steps=steps, new_points=k)
+                ctx.check("statsmodels", _close(pred2.values, ref2, 1e-6, scale * 1e-3), "statsmodels:%s:after-parameter-keeping-update:differs-from-wrapped-model" % kind,
+                          "after update(update_params=False) the forecast is not the fitted model's forecast for the requested time points", opts=o, steps=steps, new_points=k,
+                          got=np.asarray(pred2.values).tolist(), expected=ref2.tolist())
+                ctx.tag("statsmodels:then-update")
